@@ -277,22 +277,38 @@ theorem long_step (a : PAcc) (n rest : Str) (hn : n ≠ []) :
   | nil => exact absurd rfl hn
   | cons c t => rfl
 
-theorem short_step (a : PAcc) (body : Str) (hc : body.head? ≠ some 45) :
+theorem short_step (a : PAcc) (body : Str) (hc : body.head? ≠ some 45) (hne : body ≠ []) :
     stepArg tbl acc a .look (45 :: body) = shortLoop tbl acc body a := by
-  unfold stepArg
-  simp only
-  split
-  · rename_i heq
-    injection heq with _ h2
-    subst h2; simp at hc
-  · rename_i b heq
-    injection heq with _ h2
-    subst h2; simp at hc
-  · rename_i b _ heq
-    injection heq with _ h2
-    subst h2; rfl
-  · rename_i h1 h2 h3
-    exact absurd rfl (h3 body)
+  cases body with
+  | nil => exact absurd rfl hne
+  | cons c t =>
+    have hc' : c ≠ 45 := fun e => hc (by simp [e])
+    unfold stepArg
+    simp only
+    split
+    · rename_i heq
+      injection heq with _ h2
+      injection h2 with h3 _
+      exact absurd h3 hc'
+    · rename_i heq
+      injection heq with _ h2
+      cases h2
+    · rename_i b heq
+      injection heq with _ h2
+      injection h2 with h3 _
+      exact absurd h3 hc'
+    · rename_i b _ _ heq
+      injection heq with _ h2
+      subst h2; rfl
+    · rename_i h1 h2 h3 h4
+      exact absurd rfl (h4 (c :: t))
+
+theorem flagKeys_ne_nil (fl : List Flag) (hne : fl ≠ []) (h : FlagsOK tbl acc fl) : flagKeys fl ≠ [] := by
+  cases fl with
+  | nil => exact absurd rfl hne
+  | cons x t =>
+    have := (h x (by simp)).2.2.1.1
+    simp [flagKeys, this]
 
 theorem set_eq (a : PAcc) (o : Opt) (v : Str) :
     set acc a o v = if acc o.id v then some (addSets a [(o.id, v)]) else none := by
@@ -328,7 +344,7 @@ theorem run_spell_shape (sp : Spell) (hv : sp.Shape tbl acc) (seen : List Str) (
   | shortSep fl k o v =>
     obtain ⟨h0, h1, h2, h3, h4⟩ := hv
     simp only [Spell.args, Spell.sets, Spell.accepted, Spell.last, List.cons_append, List.nil_append, run_dash]
-    rw [short_step tbl acc a _ h4, shortLoop_flags tbl acc fl k a h0,
+    rw [short_step tbl acc a _ h4 (by simp [h3.1]), shortLoop_flags tbl acc fl k a h0,
       shortLoop_val_end tbl acc k o (addSets a (flagSets fl)) h3 h1 h2]
     by_cases h5 : acc o.id v = true <;> simp [run_value, set_eq, h5, addSets_addSets]
   | shortAtt fl k o v =>
@@ -342,7 +358,7 @@ theorem run_spell_shape (sp : Spell) (hv : sp.Shape tbl acc) (seen : List Str) (
     | nil => exact absurd rfl h6
     | cons d w =>
       have hd : d ≠ 61 := fun e => h7 (by simp [e])
-      rw [short_step tbl acc a _ h4', shortLoop_flags tbl acc fl (k ++ d :: w) a h0,
+      rw [short_step tbl acc a _ h4' (by simp), shortLoop_flags tbl acc fl (k ++ d :: w) a h0,
         shortLoop_val_att tbl acc k d w o (addSets a (flagSets fl)) h3 h1 h2 hd]
       simp only [set_eq]
       by_cases h5 : acc o.id (d :: w) = true <;> simp [h5, addSets_addSets]
@@ -353,16 +369,16 @@ theorem run_spell_shape (sp : Spell) (hv : sp.Shape tbl acc) (seen : List Str) (
       rw [← List.append_assoc]
       have hne : flagKeys fl ++ k ≠ [] := by simp [h3.1]
       rw [head?_append_ne _ _ hne]; exact h4
-    rw [short_step tbl acc a _ h4', shortLoop_flags tbl acc fl (k ++ 61 :: v) a h0,
+    rw [short_step tbl acc a _ h4' (by simp), shortLoop_flags tbl acc fl (k ++ 61 :: v) a h0,
       shortLoop_val_eq tbl acc k v o (addSets a (flagSets fl)) h3 h1 h2]
     simp only [set_eq]
     by_cases h5 : acc o.id v = true <;> simp [h5, addSets_addSets]
   | flags fl =>
-    obtain ⟨_, h0, h4⟩ := hv
+    obtain ⟨hfl, h0, h4⟩ := hv
     simp only [Spell.args, Spell.sets, Spell.accepted, Spell.last, List.cons_append, List.nil_append, run_dash]
     have := shortLoop_flags tbl acc fl [] a h0
     simp only [List.append_nil] at this
-    rw [short_step tbl acc a _ h4, this]
+    rw [short_step tbl acc a _ h4 (flagKeys_ne_nil tbl acc fl hfl h0), this]
     simp [shortLoop]
 
 /-- every valid spelling is consumed in `look` mode and records exactly its assignment(s) -/
@@ -398,7 +414,7 @@ theorem run_unknown_short (fl : List Flag) (k rest : Str) (tail : List Str) (see
     rw [← List.append_assoc]
     have hne : flagKeys fl ++ k ≠ [] := by simp [hk.1]
     rw [head?_append_ne _ _ hne]; exact hd
-  rw [run_dash, short_step tbl acc a _ hd', shortLoop_flags tbl acc fl (k ++ rest) a h0]
+  rw [run_dash, short_step tbl acc a _ hd' (by simp [hk.1]), shortLoop_flags tbl acc fl (k ++ rest) a h0]
   obtain ⟨hne, hr⟩ := hk
   cases k with
   | nil => exact absurd rfl hne
@@ -427,7 +443,7 @@ theorem run_missing_short (fl : List Flag) (k : Str) (o : Opt) (seen : List Str)
     (h0 : FlagsOK tbl acc fl) (h1 : tbl k = some o) (h2 : o.isBool = false) (h3 : IsRune k)
     (h4 : (flagKeys fl ++ k).head? ≠ some 45) :
     run tbl acc files seen a .look [45 :: (flagKeys fl ++ k)] = .fatal := by
-  rw [run_dash, short_step tbl acc a _ h4, shortLoop_flags tbl acc fl k a h0,
+  rw [run_dash, short_step tbl acc a _ h4 (by simp [h3.1]), shortLoop_flags tbl acc fl k a h0,
     shortLoop_val_end tbl acc k o (addSets a (flagSets fl)) h3 h1 h2]
   simp [run_nil]
 
@@ -479,20 +495,23 @@ def Tail.rest : Tail → List Str
   | .sep qs => qs
   | .plain p ps => p :: ps
 
-/-- the first positional does not itself look like an option or a response-file reference -/
+/-- the first positional does not itself look like an option or a response-file reference (a lone `-` does not) -/
 def Tail.OK : Tail → Prop
-  | .plain p _ => p.head? ≠ some 45 ∧ p.head? ≠ some 64
+  | .plain p _ => (p = [45] ∨ p.head? ≠ some 45) ∧ p.head? ≠ some 64
   | _ => True
 
-theorem stepArg_plain (a : PAcc) (p : Str) (hp : p.head? ≠ some 45) :
+theorem stepArg_plain (a : PAcc) (p : Str) (hp : p = [45] ∨ p.head? ≠ some 45) :
     stepArg tbl acc a .look p = some ({ a with rest := a.rest ++ [p] }, .collect) := by
-  unfold stepArg
-  simp only
-  split
-  · simp at hp
-  · simp at hp
-  · simp at hp
+  rcases hp with rfl | hp
   · rfl
+  · unfold stepArg
+    simp only
+    split
+    · simp at hp
+    · rfl
+    · simp at hp
+    · simp at hp
+    · rfl
 
 theorem run_tail (t : Tail) (ht : t.OK) (seen : List Str) (a : PAcc) :
     run tbl acc files seen a .look t.args = .ok { a with rest := a.rest ++ t.rest } := by
@@ -920,9 +939,9 @@ theorem acceptsOf_user (orc : Oracle) (incl : Bool) (decls : List Decl) (i : Nat
   simp [acceptsOf, kindOfId_user incl decls i d hd]
 
 theorem run_bare_dash (tbl : Table) (acc : Accepts) (files : Files) (seen : List Str) (a : PAcc) (args : List Str) :
-    run tbl acc files seen a .look ([45] :: args) = run tbl acc files seen a .look args := by
-  rw [run_dash, short_step tbl acc a [] (by simp)]
-  simp [shortLoop]
+    run tbl acc files seen a .look ([45] :: args) = .ok { a with rest := a.rest ++ [45] :: args } := by
+  rw [run_dash]
+  simp [stepArg, run_collect]
 
 
 
@@ -1079,6 +1098,163 @@ theorem linesOf_crlf (ls : List Str) (h : ∀ l ∈ ls, 10 ∉ l) :
     simp [dropCR]
 
 
+
+
+/-! ### the store: each variable sees exactly its own `Set` calls, in order -/
+
+theorem setVar_eq (orc : Oracle) (k : Kind) (cur : Var) (raw : Str) :
+    setVar orc k cur raw =
+      (typed orc k.base raw).map (fun t => if k.slice || k.base == .log then cur ++ [t] else [t]) := by
+  obtain ⟨b, sl⟩ := k
+  cases b <;> cases sl <;> simp [setVar, typed, Option.map] <;> (try split <;> simp_all)
+
+/-- one `Set` call on the variable of option `id` (an error leaves it as it was) -/
+def stepVar (orc : Oracle) (incl : Bool) (decls : List Decl) (id : Nat) (cur : Var) (raw : Str) : Var :=
+  match kindOfId incl decls id with
+  | some k => (setVar orc k cur raw).getD cur
+  | none => cur
+
+theorem get_cons (st : Store) (id j : Nat) (v : Var) :
+    Store.get ((j, v) :: st) id = if id = j then v else st.get id := by
+  unfold Store.get
+  by_cases h : id = j
+  · subst h; simp [List.lookup]
+  · have : (id == j) = false := by simpa using h
+    simp [List.lookup, this, h]
+
+theorem get_setOpt (orc : Oracle) (incl : Bool) (decls : List Decl) (st : Store) (p : Nat × Str) (id : Nat) :
+    (setOpt orc incl decls st p).get id =
+      if p.1 = id then stepVar orc incl decls id (st.get id) p.2 else st.get id := by
+  unfold setOpt stepVar
+  by_cases h : p.1 = id
+  · subst h
+    simp only [if_true]
+    cases kindOfId incl decls p.1 with
+    | none => rfl
+    | some k =>
+      simp only
+      cases setVar orc k (st.get p.1) p.2 with
+      | none => rfl
+      | some v => simp [get_cons]
+  · simp only [h, if_false]
+    cases kindOfId incl decls p.1 with
+    | none => rfl
+    | some k =>
+      simp only
+      cases setVar orc k (st.get p.1) p.2 with
+      | none => rfl
+      | some v =>
+        have : ¬ id = p.1 := fun e => h e.symm
+        simp [get_cons, this]
+
+theorem assigned_cons (id : Nat) (p : Nat × Str) (t : List (Nat × Str)) :
+    assigned id (p :: t) = if p.1 = id then p.2 :: assigned id t else assigned id t := by
+  by_cases h : p.1 = id
+  · simp [assigned, h]
+  · have : (p.1 == id) = false := by simpa using h
+    simp [assigned, h, List.filter_cons, this]
+
+/-- the variable of option `id` after a run: the fold of ITS assignments, in order, over its initial contents -/
+theorem get_applySets (orc : Oracle) (incl : Bool) (decls : List Decl) (sets : List (Nat × Str)) :
+    ∀ (st : Store) (id : Nat), (applySets orc incl decls st sets).get id =
+      (assigned id sets).foldl (stepVar orc incl decls id) (st.get id) := by
+  induction sets with
+  | nil => intro st id; simp [applySets, assigned]
+  | cons p t ih =>
+    intro st id
+    have : applySets orc incl decls st (p :: t) = applySets orc incl decls (setOpt orc incl decls st p) t := by
+      simp [applySets]
+    rw [this, ih, get_setOpt, assigned_cons]
+    by_cases h : p.1 = id <;> simp [h]
+
+theorem stepVar_eq (orc : Oracle) (incl : Bool) (decls : List Decl) (id : Nat) (k : Kind)
+    (hk : kindOfId incl decls id = some k) (cur : Var) (raw : Str) :
+    stepVar orc incl decls id cur raw =
+      match typed orc k.base raw with
+      | some t => if k.slice || k.base == .log then cur ++ [t] else [t]
+      | none => cur := by
+  simp only [stepVar, hk, setVar_eq]
+  cases typed orc k.base raw <;> rfl
+
+theorem foldl_append_kind (orc : Oracle) (incl : Bool) (decls : List Decl) (id : Nat) (k : Kind)
+    (hk : kindOfId incl decls id = some k) (ha : (k.slice || k.base == .log) = true) (raws : List Str) :
+    ∀ cur, raws.foldl (stepVar orc incl decls id) cur = cur ++ raws.filterMap (typed orc k.base) := by
+  induction raws with
+  | nil => intro cur; simp
+  | cons r rs ih =>
+    intro cur
+    simp only [List.foldl_cons, ih, stepVar_eq orc incl decls id k hk, ha, if_true]
+    cases h : typed orc k.base r <;> simp [List.filterMap_cons, h]
+
+/-- the last element alone, or `d` if there is none -/
+def lastOr (l : List String) (d : Var) : Var :=
+  match l.getLast? with
+  | some t => [t]
+  | none => d
+
+theorem foldl_scalar_kind (orc : Oracle) (incl : Bool) (decls : List Decl) (id : Nat) (k : Kind)
+    (hk : kindOfId incl decls id = some k) (ha : (k.slice || k.base == .log) = false) (raws : List Str) :
+    ∀ cur, raws.foldl (stepVar orc incl decls id) cur = lastOr (raws.filterMap (typed orc k.base)) cur := by
+  unfold lastOr
+  induction raws with
+  | nil => intro cur; simp
+  | cons r rs ih =>
+    intro cur
+    simp only [List.foldl_cons, ih, stepVar_eq orc incl decls id k hk, ha]
+    cases h : typed orc k.base r with
+    | none => simp [List.filterMap_cons, h]
+    | some t =>
+      simp only [List.filterMap_cons, h, Bool.false_eq_true, if_false]
+      cases h2 : (rs.filterMap (typed orc k.base)).getLast? with
+      | none =>
+        have : rs.filterMap (typed orc k.base) = [] := by simpa using h2
+        simp [this]
+      | some t' =>
+        have : (t :: rs.filterMap (typed orc k.base)).getLast? = some t' := by
+          rw [List.getLast?_cons]; simp [h2]
+        simp [this]
+
+theorem get_initStoreFrom (orc : Oracle) (decls : List Decl) : ∀ (start i : Nat) (d : Decl), decls[i]? = some d →
+    ∀ (pre : Store), (∀ e ∈ pre, e.1 < start) →
+      Store.get (pre ++ initStoreFrom orc start decls) (start + i) = initVar orc d.kind d.defs := by
+  induction decls with
+  | nil => intro start i d h; simp at h
+  | cons d0 ds ih =>
+    intro start i d h pre hpre
+    cases i with
+    | zero =>
+      simp only [List.getElem?_cons_zero, Option.some.injEq] at h
+      subst h
+      unfold Store.get
+      have hn : pre.lookup start = none := by
+        rw [List.lookup_eq_none_iff]
+        intro e he
+        have := hpre e he
+        simp; omega
+      simp [List.lookup_append, hn, initStoreFrom, List.lookup]
+    | succ j =>
+      simp only [List.getElem?_cons_succ] at h
+      have := ih (start + 1) j d h (pre ++ [(start, initVar orc d0.kind d0.defs)]) (by
+        intro e he
+        simp only [List.mem_append, List.mem_singleton] at he
+        rcases he with he | he
+        · have := hpre e he; omega
+        · subst he; simp)
+      simp only [initStoreFrom]
+      have e1 : start + (j + 1) = start + 1 + j := by omega
+      rw [e1]
+      simpa [List.append_assoc] using this
+
+theorem get_initStore (orc : Oracle) (decls : List Decl) (i : Nat) (d : Decl) (h : decls[i]? = some d) :
+    (initStore orc decls).get (firstUserId + i) = initVar orc d.kind d.defs := by
+  have := get_initStoreFrom orc decls firstUserId i d h
+    [(idHelp, ["false"]), (idVersion, ["false"]), (idLongVersion, ["false"])] (by
+      intro e he
+      simp only [List.mem_cons, List.mem_nil_iff, or_false] at he
+      rcases he with rfl | rfl | rfl <;> simp [idHelp, idVersion, idLongVersion, firstUserId])
+  simpa [initStore] using this
+
+
 /-! ### a concrete instance (used for the non-vacuity examples of Props/C10.lean) -/
 
 def exTbl : Table := tableOf [([110], ⟨3, false⟩), ([110, 97, 109, 101], ⟨3, false⟩), ([97], ⟨4, true⟩)]
@@ -1095,5 +1271,26 @@ theorem exValid : ∀ sp ∈ exSpells, sp.Valid exTbl (fun _ _ => true) := by
     subst hx
     exact ⟨rfl, rfl, isRune_ascii 97 (by omega), rfl⟩
   · exact ⟨⟨rfl, rfl, by decide, by simp⟩, rfl⟩
+
+
+
+/-- two real declarations: a string option n or name (default "d") and a flag a -/
+def exDecls : List Decl := [⟨110, some [110, 97, 109, 101], ⟨.str, false⟩, [[100]]⟩, ⟨97, none, ⟨.bool, false⟩, [[102, 97, 108, 115, 101]]⟩]
+
+def exEs : Entries :=
+  [([104], ⟨0, true⟩), ([104, 101, 108, 112], ⟨0, true⟩), ([110], ⟨3, false⟩), ([110, 97, 109, 101], ⟨3, false⟩), ([97], ⟨4, true⟩)]
+
+theorem exBuild : build false exDecls = some exEs := by decide
+
+theorem exDeclValid : ∀ sp ∈ [Spell.shortSep [] (encodeRune 110) ⟨firstUserId + 0, false⟩ [120],
+      Spell.longEq [110, 97, 109, 101] ⟨firstUserId + 0, false⟩ [121]],
+    sp.Valid (tableOf exEs) (acceptsOf [] false exDecls) := by
+  intro sp hsp
+  simp only [List.mem_cons, List.mem_nil_iff, or_false] at hsp
+  rcases hsp with rfl | rfl
+  · exact (declared_short_valid [] false exDecls exEs exBuild 0 _ rfl (by decide) (by decide) (by decide) (by decide)
+      rfl [120] rfl).1
+  · exact (declared_long_valid [] false exDecls exEs exBuild 0 _ rfl [110, 97, 109, 101] rfl (by decide) rfl [121] rfl).1
+
 
 end Cmd
